@@ -48,7 +48,7 @@ impl<'r> Sampler<'r> {
                         }
                     }
                 }
-                let n = self.rng.pick(&choices).min(12);
+                let n = self.rng.pick(&choices).min(16usize.max(min));
                 for _ in 0..n {
                     self.go(&rep.sub, out);
                 }
